@@ -67,6 +67,9 @@ func (c *clipperD) ExecutePolyTreeD(clipType ClipType, fillRule FillRule, polytr
 }
 
 func (c *clipperD) ExecuteOC(clipType ClipType, fillRule FillRule, solutionClosed, solutionOpen *PathsD) bool {
+	*solutionClosed = (*solutionClosed)[:0]
+	*solutionOpen = (*solutionOpen)[:0]
+
 	solClosed64 := make(Paths64, 0)
 	solOpen64 := make(Paths64, 0)
 
